@@ -213,6 +213,22 @@ func init() {
 		rs.runDiff(spec)
 	}}
 
+	// C10 is decided on the runtime (engine R); this part adds the compiled view of the same statement: WHICH iterator
+	// backs a range loop, and with which operand, is the compiler's choice (rewriter/range.go), so the complete range
+	// table and the range shapes are also run under C10 (no random programs: those belong to C04)
+	checks["C10"] = &checkT{run: func(rs *runState) {
+		rs.rule("compiled view: the complete range table (collection x variable form x token x body shape) and the hand-written range shapes (conversions such as []rune(s), named collection types, " +
+			"assignment-form operands) compiled by the real compiler; oracle: trace equality with the native range statement; non-trivial = >= 2 iterations or a mutation in the body; distinct by hash(program)+input")
+		table := append(rangeTable(), rangeShapePrograms()...)
+		rs.exh = append(rs.exh, "range table + range shapes: "+itoa(len(table))+" programs")
+		rs.runDiff(&diffSpec{
+			fixed: table, styles: importStyles[:1], batchSize: 40,
+			nontrivial: func(p *Program, r *Record) bool {
+				return p.hasTag("iterations>=2") || p.hasTag("mutation") || strings.HasPrefix(p.Profile, "shape:")
+			},
+		})
+	}}
+
 	checks["C05"] = &checkT{run: func(rs *runState) {
 		rs.rule("delegation call graphs of 2-5 generators: YieldFrom of earlier generators, of generator literals, of iterator variables advanced by hand 0-2 times, inside loops/switches; " +
 			"recursive tree/chain walks; oracle: trace equality with the reference where YieldFrom(x) is `for x.MoveNext() { yield(x.Current()) }`, and the metamorphic twin " +
